@@ -272,6 +272,34 @@ def _verdict(prop, run):
         for d in run.divergences:
             by_layer.setdefault(d["layer"], d)
         for layer, d in by_layer.items():
+            # failing-input search, step 1: the diverging inputs themselves. A known-finding class only
+            # excuses the behaviour the model reproduces; where the implementation no longer matches the
+            # model AND the property fails there, that failure is not the recorded one.
+            hit = None
+            for dd in run.divergences:
+                if dd["layer"] != layer or dd.get("input") is None:
+                    continue
+                try:
+                    fl = prop.oracle(dd["input"], run)
+                except Exception:
+                    fl = []
+                if fl:
+                    hit = (dd, fl)
+                    break
+            if hit is not None:
+                dd, fl = hit
+                path = run.write_replay(
+                    "property-failure",
+                    {
+                        "input": dd["input"],
+                        "failure": fl[0],
+                        "note": "the property fails on this input and the implementation's behaviour differs from the "
+                        "model of the recorded behaviour (so this is not the recorded finding)",
+                        "divergence": {k: dd[k] for k in ("layer", "impl", "model")},
+                    },
+                )
+                run.violation(path)
+                continue
             path = run.write_replay(
                 "correspondence",
                 {
